@@ -118,6 +118,22 @@ def opLr (hdr rats ms : List Int) : String :=
       okG [vals.flatMap fun v => ratG (v.getD 0)]
   | _, _ => "err BadOp"
 
+def ratsOf : List Int → List Rat
+  | n :: d :: r => mkR n d :: ratsOf r
+  | _ => []
+
+/-- `lrcos method warmupIters lo hi maxIters | base wf | cos(π·e/max) for e in [lo, hi) as exact rationals` -/
+def opLrCos (hdr rats cs : List Int) : String :=
+  match hdr, rats with
+  | [m, wi, lo, hi, mx], [bn, bd, wn, wd] =>
+    let c : Sched.Cosine := { base := mkR bn bd, maxIters := mx, wf := mkR wn wd, warmupIters := wi,
+                              method := C16.parseMethod m }
+    let tab := (ratsOf cs).toArray
+    let cosPi : Int → Int → Rat := fun e _ => tab[(e - lo).toNat]!
+    let vals := (irange lo hi).map (c.lr cosPi)
+    if vals.any Option.isNone then "err ValueError" else okG [vals.flatMap fun v => ratG (v.getD 0)]
+  | _, _ => "err BadOp"
+
 /-! ### serialisation of toy snapshots (so that the model's directory holds bytes) -/
 
 def zig (i : Int) : Nat := if i ≥ 0 then 2 * i.toNat else 2 * (-i).toNat - 1
@@ -238,7 +254,7 @@ def opBundle (a b : Bundle.Objs) (mode : Int) (keys : List Int) : String :=
   let file := Bundle.save a
   match Bundle.load b file m with
   | .error _ => "err KeyError"
-  | .ok b' => okG [b'.map fun kv => (kv.2 : Int), (Bundle.leftover file m).map Int.ofNat]
+  | .ok b' => okG [b'.map fun kv => (kv.2 : Int), (Bundle.leftover b file m).map Int.ofNat]
 
 def step (op : String) (gs : List (List Int)) : String :=
   match op, gs with
@@ -261,6 +277,7 @@ def step (op : String) (gs : List (List Int)) : String :=
     | some fs => opDirLoad last fs
     | none => "err BadOp"
   | "lr", [hdr, rats, ms] => opLr hdr rats ms
+  | "lrcos", [hdr, rats, cs] => opLrCos hdr rats cs
   | "bundle", [a, b, [mode], keys] =>
     match pairs a, pairs b with
     | some a, some b => opBundle a b mode keys
